@@ -84,17 +84,17 @@ class Gen:
         while True:
             self.slots = []
             r = rng.random()
-            if r < 0.22:
-                t = self.model(rng.choice(["F2", "F3", "T1", "T2", "TF", "T1"]))
-            elif r < 0.27:
+            if r < 0.18:
+                t = self.model(rng.choice(["F2", "F3", "F2", "T2", "T2", "F1", "TF", "T1"]))
+            elif r < 0.22:
                 t = self.model(rng.choice(["RW", "RL"]))
-            elif r < 0.30:
+            elif r < 0.24:
                 # a collection holding a parameter directly under a reserved column name
                 t = self.coll(0, 0.0)
                 if t["style"] == "dict":
                     t["ms"].append([rng.choice(["weight", "log_prior", "kwargs"]), self.slot(0.0)])
             else:
-                t = self.coll(0, rng.choice([0.0, 0.0, 0.15, 0.3]))
+                t = self.coll(0, rng.choice([0.0, 0.0, 0.0, 0.0, 0.15, 0.3]))
             if self.slots:
                 break
         # sharing and creation order
@@ -105,7 +105,7 @@ class Gen:
             else:
                 s["pid"] = pid
                 pid += 1
-        if rng.random() < 0.7:
+        if rng.random() < 0.35:
             perm = list(range(pid))
             rng.shuffle(perm)
             for s in self.slots:
@@ -137,9 +137,12 @@ def rand_float(rng, allow_inf=False):
 def gen_rows(rng, npri, thorough):
     n = rng.choice([1, 1, 2, 3, 3, 4, 5, 6, 8] + ([12, 20] if thorough else []))
     mode = rng.random()
+    zeros = rng.random() < 0.15          # parameter values equal to +-0.0 only in some cases
     rows = []
     for i in range(n):
         p = [rand_float(rng, allow_inf=True) for _ in range(npri)]
+        while not zeros and any(x == 0.0 for x in p):
+            p = [rand_float(rng, allow_inf=True) if x == 0.0 else x for x in p]
         r = rng.random()
         if r < 0.7:
             ll = -abs(rng.gauss(0, 50))
@@ -250,7 +253,7 @@ def gen_cases(ctx):
     thorough = ctx.tier == "thorough"
     g = Gen(rng, thorough)
     cases = []
-    n_samples = 170 if not thorough else 1400
+    n_samples = 130 if not thorough else 1000
     for _ in range(n_samples):
         tree, npri = g.tree()
         c = {"kind": "samples", "tree": tree, "npri": npri,
@@ -267,7 +270,7 @@ def gen_cases(ctx):
             rows = gen_rows(rng, npri, thorough)
         cases.append({"kind": "dbseq", "tree": tree, "npri": npri, "rows": rows,
                       "first": rng.randint(1, len(rows) - 1), "new_paths": rng.random() < 0.5})
-    for _ in range(8 if not thorough else 48):
+    for _ in range(6 if not thorough else 36):
         tree, npri = g.tree()
         cases.append({"kind": "fit", "tree": tree, "npri": npri, "kinds": [rng.choice("ug")],
                       "draws": rng.randint(2, 6), "targets": [hx(rng.uniform(0, 1)) for _ in range(12)],
@@ -617,7 +620,7 @@ def run(ctx):
     fit_csv = [c for c in cases if c["kind"] == "fit" and c["csv"]]
     fit_nocsv = [c for c in cases if c["kind"] == "fit" and not c["csv"]]
     rest = [c for c in cases if c["kind"] != "fit"]
-    payloads = [{"cases": ch} for ch in chunks(rest, 12)] + [{"cases": ch} for ch in chunks(fit_csv, 3) if ch]
+    payloads = [{"cases": ch} for ch in chunks(rest, 14)] + [{"cases": ch} for ch in chunks(fit_csv, 2 if len(fit_csv) < 12 else 6) if ch]
     if fit_nocsv:
         payloads.append({"cases": fit_nocsv, "samples_to_csv": False})
     outs = common.run_impl_parallel("c09_impl", payloads, timeout=1500)
